@@ -36,21 +36,28 @@ class Hyperlinks(Harness):
         self.kinds = kinds or KINDS
         if name: self.name = name
         self.doc = 'the real sheet-part writer and relationship-part writer on a worksheet with %d hyperlinked cells (each an external link, an external link with an empty address, or an internal location), with the XML driver replaced by an event recorder and every HashMap iteration taking a solver-chosen order: each r:id of the sheet part resolves to the URL of its own cell' % self.n
-        self.bounds = {'hyperlinks': self.n, 'kinds': self.kinds, 'hash_map_iteration_order': 'every permutation, chosen independently per iteration', 'sub_writers': 'stubbed (no output): everything except the hyperlinks block and the relationship loop'}
+        self.bounds = {'hyperlinks': self.n, 'cells': 'distinct cells out of A2, A10, B1 (text order differs from row/column order)', 'kinds': self.kinds, 'hash_map_iteration_order': 'every permutation, chosen independently per iteration', 'sub_writers': 'stubbed (no output): everything except the hyperlinks block and the relationship loop'}
     def run(self, it, ctx, res):
         ev_sheet, ev_rels = Events(), Events()
         it.hash_order = 'symbolic'; it._hm_iter = 0
         try:
             ws = new_sheet(it)
             urls = {}; kinds = []
+            # cells whose order as text (A10 < A2 < B1) differs from their order by row and column (B1, A2, A10)
+            pool = [(1, 2), (1, 10), (2, 1)]
+            left = list(pool); cells = []
+            for i in range(self.n):
+                if len(left) > 1:
+                    pi = ctx.sym_int('cell%d' % i, 0, len(left) - 1); cells.append(left.pop(next(k for k in range(len(left)) if ctx.branch(pi == k))))
+                else: cells.append(left.pop(0))
             for i in range(self.n):
                 ki = ctx.sym_int('kind%d' % i, 0, len(self.kinds) - 1); kind = self.kinds[next(k for k in range(len(self.kinds)) if ctx.branch(ki == k))]; kinds.append(kind)
-                cell = it.call(WS + 'get_cell_mut::<(u32, u32)>', [Ref(ws), [1, i + 1]])
+                cell = it.call(WS + 'get_cell_mut::<(u32, u32)>', [Ref(ws), [cells[i][0], cells[i][1]]])
                 h = it.call('structs::cell::Cell::get_hyperlink_mut', [cell])
                 u = '' if kind == 'blank' else 'u%d' % (i + 1)
                 it.call('structs::hyperlink::Hyperlink::set_url::<&str>', [h, sref(u)])
                 if kind == 'location': it.call('structs::hyperlink::Hyperlink::set_location', [h, True])
-                urls['A%d' % (i + 1)] = (kind, u)
+                urls[coord_str(cells[i][0], cells[i][1], False, False)] = (kind, u)
             sst = Box_(it.call('<structs::shared_string_table::SharedStringTable as std::default::Default>::default', []))
             sty = Box_(it.call('<structs::stylesheet::Stylesheet as std::default::Default>::default', []))
             install_recorders(it, ev_sheet)
@@ -69,7 +76,7 @@ class Hyperlinks(Harness):
             ref = pstr(SStr(l['ref']))
             if 'location' in l: pairs[ref] = ('location', pstr(SStr(l['location'])), 'r:id' in l)
             else: pairs[ref] = ('external', rels.get(pstr(SStr(l.get('r:id', [])))), True)
-        info = {'pairs': {k: list(v) for k, v in pairs.items()}, 'kinds': kinds}
+        info = {'pairs': {k: list(v) for k, v in pairs.items()}, 'kinds': kinds, 'cells': [coord_str(c[0], c[1], False, False) for c in cells]}
         def good(c, kind, u):
             got = pairs.get(c)
             if got is None: return False
@@ -79,14 +86,14 @@ class Hyperlinks(Harness):
         self.oblige(ctx, res, 'one-relationship-per-external-link', len(rels) == n_ext, info=dict(info, relationships=len(rels)))
     def case_of(self, v):
         kinds = [self.kinds[v['model'].get('kind%d' % i, 0)] for i in range(self.n)]
-        c = {'hyperlinks': self.n, 'kinds': kinds, 'pairs': v['info'].get('pairs'), 'orders': {k: val for k, val in v['model'].items() if k.startswith('hash_order')}}
+        c = {'hyperlinks': self.n, 'kinds': kinds, 'cell_order': v['info'].get('cells'), 'pairs': v['info'].get('pairs'), 'orders': {k: val for k, val in v['model'].items() if k.startswith('hash_order')}}
         c['show'] = dict(c); return c
     def confirm(self, case, profile):
         # the iteration order of a real HashMap is not under our control: repeat the save until a mismatch shows (or give up)
         kinds = list(case.get('kinds') or [])
         kinds = ','.join(kinds + ['url'] * (max(case['hyperlinks'], 4) - len(kinds)))
         for _ in range(12):
-            r = native.run_cases([['hyperlink_roundtrip', max(case['hyperlinks'], 4), kinds]], profile, timeout_each=60)[0]
+            r = native.run_cases([['hyperlink_roundtrip', max(case['hyperlinks'], 4), kinds, ','.join(case.get('cell_order') or [])]], profile, timeout_each=60)[0]
             if r[0] != 'ok': return True, 'hyperlink round trip -> %r' % (r,)
             wrong = native.unhx(r[1][0])
             if wrong: return True, 'cells whose hyperlink target changed after save and reload: %s' % wrong
